@@ -128,7 +128,7 @@ Proof.
         destruct (IHc _ _ _ _ _ _ _ _ Hr1 Hh Hi Hu1) as (h1' & Hr1' & Hh1). rewrite Hr1', Um.
         destruct (IHh _ _ _ _ _ _ _ _ _ Hr2 Hh1 I1 Hu) as (h2' & Hr2' & Hh2). rewrite Hr2'. fin.
   - (* World *)
-    destruct op as [|s]; [destruct (w_in w) as [|ln rs]|]; eapply IH; eauto.
+    destruct (wstep w op) as [w2 [rv|re]]; [eapply IH; eauto|]. inversion Hr; subst. exists h'. split; auto.
 Qed.
 
 Lemma Rel n : RA n -> RC n -> forall c c', crel c c' -> P n c c'.
